@@ -1308,10 +1308,10 @@ func checkPinType(pin *api.Pin) error {
 			return errors.New("data pins should not reference other pins")
 		}
 	case api.ShardType:
-		if pin.MaxDepth != 1 {
-			return errors.New("must pin shards go depth 1")
+		// shards with an indirect DAG are pinned with depth 2
+		if pin.MaxDepth != 1 && pin.MaxDepth != 2 {
+			return errors.New("must pin shards go depth 1 or 2")
 		}
-		// FIXME: indirect shard pins could have max-depth 2
 		// FIXME: repinning a shard type will overwrite replication
 		//        factor from previous:
 		// if existing.ReplicationFactorMin != rplMin ||
